@@ -27,7 +27,7 @@ LEVEL = "proof"
 MODULE = "Sqfs.Props.C11"
 REQUIRED = ["Sqfs.C11.insertSorted_perm", "Sqfs.C11.insertSorted_sorted", "Sqfs.C11.compare_names_total_order",
             "Sqfs.C11.read_names_sorted", "Sqfs.C11.read_names_perm", "Sqfs.C11.qsort_any_conforming",
-            "Sqfs.C11.scan_perm_invariant", "Sqfs.C11.scan_perm_invariant_glob", "Sqfs.C11.pack_order_invariant",
+            "Sqfs.C11.scan_perm_invariant", "Sqfs.C11.scan_perm_invariant_glob", "Sqfs.C11.pack_order_invariant", "Sqfs.C11.sort_files_perm_sorted_stable",
             "Sqfs.C11.numbering_deterministic", "Sqfs.C11.scan_tree_sorted", "Sqfs.C11.glob_tree_sorted"]
 # not obligations of the property: the witness for the iterator without its qsort call (a revert of /repo 7ff9210), and the
 # frozen record of the theorems about the code before that commit; both must keep building with allowed axioms only
@@ -1387,6 +1387,109 @@ def unit_part(ctx, unit, harness, counters, hist):
             raise vlib.CheckFailure("unit part `%s` evaluated nothing" % k)
 
 
+def direct_part(ctx, harness, counters, hist):
+    """fstree_add_generic / fstree_post_process called directly (no pack-file parser in between): the argument checks
+    (EINVAL, ERANGE), the nesting limit of mknode, and hard links that point at files, at other links (chains, cycles), at
+    directories or at nothing, queued in different orders"""
+    r = ctx.rng
+    dp = {"ops": 0, "nesting": 0, "range": 0, "link_sets": 0, "flat_sets": 0, "err": 0, "orders_per_set": 3}
+
+    def ent(kind, path, mode, uid=0, gid=0, mtime=0, rdev=0, extra=None):
+        return [kind, tok(path), str(mode), str(uid), str(gid), str(mtime), str(rdev), otok(extra)]
+
+    def op(what, ents, d=(0, 0, 0, 0o755)):
+        return "direct %s %d %d %d %d %d %s" % (what, d[0], d[1], d[2], d[3], len(ents), " ".join(" ".join(e) for e in ents))
+
+    lines, groups = [], []          # groups: (first line index, number of lines, all-flat?) for the link sets
+    for depth in (4095, 4096, 4097, 4098):
+        p = b"/".join([b"a"] * depth)
+        lines += [op("count", [ent("A", p, 0o40755)]), op("count", [ent("A", p, 0o100644, extra=b"in")]),
+                  op("count", [ent("A", b"/".join([b"a"] * (depth - 1)), 0o40755), ent("A", p, 0o40700)]),
+                  op("count", [ent("A", b"x", 0o100644), ent("L", p, 0o120777, extra=b"x")])]
+        dp["nesting"] += 4
+    for v in (2 ** 32 - 1, 2 ** 32, 2 ** 40 + 5):
+        lines += [op("full", [ent("A", b"u", 0o100644, uid=v)]), op("full", [ent("A", b"g", 0o40755, gid=v)]),
+                  op("full", [ent("A", b"c", 0o20644, rdev=v)]), op("full", [ent("A", b"b", 0o60644, rdev=v)]),
+                  op("full", [ent("A", b"f", 0o100644, rdev=v)]), op("full", [ent("A", b"t", 0o100644), ent("L", b"h", 0o60644, rdev=v, extra=b"t")]),
+                  op("full", [ent("A", b"d/e", 0o10644, uid=v)])]
+        dp["range"] += 7
+    lines += [op("full", [ent("A", b"l", 0o120777)]), op("full", [ent("A", b"l", 0o120777, extra=b"")]),
+              op("full", [ent("A", b"l", 0o120777, extra=b"tgt")]), op("full", [ent("L", b"l", 0o120777)]),
+              op("full", [ent("A", b"", 0o40700, uid=7)]), op("full", [ent("A", b"", 0o100600)])]
+    for si in range(30 if ctx.quick() else 300):
+        dirs = [b""] + [r.choice([b"d", b"e", b"d/s", b"zz"]) for _ in range(r.randint(0, 2))]
+        files, base = [], []
+        for d in sorted(set(dirs)):
+            if d and r.random() < 0.7:
+                base.append(ent("A", d, 0o40755, mtime=5))
+        for i in range(r.randint(1, 6)):
+            d = r.choice(dirs)
+            p = (d + b"/" if d else b"") + r.choice([b"f", b"a", b"m", b"\xff", b"0"]) + b"%d" % i
+            files.append(p)
+            base.append(ent("A", p, r.choice([0o100644, 0o100644, 0o10600, 0o120777, 0o20600]), extra=b"x" if r.random() < 0.8 else None, rdev=r.randint(0, 500)))
+        kind = r.choice(["flat", "flat", "flat", "mixed", "mixed", "cycle"])
+        links, names = [], []
+        for i in range(r.randint(1, 7)):
+            d = r.choice(dirs)
+            p = (d + b"/" if d else b"") + r.choice([b"l", b"z", b"A", b"\x01"]) + b"%d" % i
+            if kind == "flat" or not names or r.random() < 0.5:
+                tgt = r.choice(files)
+            elif kind == "cycle" and r.random() < 0.5:
+                tgt = r.choice(names + [p])
+            else:
+                tgt = r.choice(names + [b"missing", r.choice(dirs) or b"d", b"d/none"])
+            names.append(p)
+            links.append(ent("L", p, 0o120777, uid=i, extra=tgt))
+        # a symlink without target (0o120777 with extra None) makes the whole thing fail: keep, it is a legal input
+        flat = kind == "flat" and all(e[7] != "-" or not stat.S_ISLNK(int(e[2])) for e in base)
+        first = len(lines)
+        for k in range(dp["orders_per_set"]):
+            perm = list(links)
+            r.shuffle(perm)
+            if k == 0:
+                ents = base + perm
+            elif k == 1:
+                ents = base + list(reversed(perm))
+            else:                                           # links queued before / between the files they point to
+                ents = list(base)
+                for l in perm:
+                    ents.insert(r.randint(0, len(ents)), l)
+                # parents must still come first for explicit directories: keep `dir` entries in front
+                ents.sort(key=lambda e: 0 if (e[0] == "A" and stat.S_ISDIR(int(e[2]))) else 1)
+            lines.append(op("full", ents))
+        groups.append((first, dp["orders_per_set"], flat))
+        dp["link_sets"] += 1
+        dp["flat_sets"] += 1 if flat else 0
+    out, crash = run_harness(ctx, harness, lines, "direct")
+    if crash:
+        ctx.violation("crash:direct", "fstree_add_generic / fstree_post_process aborted (rc=%s) after %d of %d operations: %s"
+                      % (crash["rc"], crash["answered"], crash["of"], crash["stderr"][-300:]),
+                      dict(crash, level="direct", next_op=lines[min(crash["answered"], len(lines) - 1)][:2000]))
+        return
+    m = model(ctx, lines)
+    bad = 0
+    for i, (l, real, mo) in enumerate(szip(lines, out, m)):
+        dp["ops"] += 1
+        dp["err"] += 1 if real == "err" else 0
+        counters["evaluations"] += 1
+        if real != mo:
+            bad += 1
+            counters["mismatch"] += 1
+            if bad <= 3:
+                ctx.violation("corr:direct:%s" % vlib.sha(l)[:10], "fstree_add_generic/fstree_post_process and the model disagree (real %s, model %s)"
+                              % (real[:60], mo[:60]), {"level": "direct", "op": l[:20000], "real": real[:3000], "model": mo[:3000]}, found_input=False)
+    for first, n, flat in groups:
+        res = out[first:first + n]
+        if flat and any(x != res[0] for x in res) and bad <= 3:
+            bad += 1
+            ctx.violation("order:links:%s" % vlib.sha(lines[first])[:10], "fstree_post_process gives different results for different orders of the "
+                          "same hard links (all pointing at existing non-directories)", {"level": "direct", "ops": [x[:20000] for x in lines[first:first + n]],
+                                                                                          "real": [x[:3000] for x in res]})
+    hist["direct"] = dp
+    if dp["ops"] < 100 or dp["flat_sets"] < 5 or dp["err"] == 0 or dp["err"] == dp["ops"]:
+        raise vlib.CheckFailure("direct part starved: %s" % dp)
+
+
 SORT_FLAGS = {"dont_fragment": 4, "dont_compress": 1, "dont_deduplicate": 8, "nosparse": 16}
 
 
@@ -1483,6 +1586,9 @@ def run(ctx):
     t0 = time.time()
     unit_part(ctx, unit, harness, counters, hist)
     hist["unit"]["seconds"] = round(time.time() - t0, 1)
+    t0 = time.time()
+    direct_part(ctx, harness, counters, hist)
+    hist["direct"]["seconds"] = round(time.time() - t0, 1)
 
     # 0a. corpus of minimised past disagreements (each: tree spec + case + orders), harness level and tool level
     cdir = vlib.CORPUS / "C11"
